@@ -87,7 +87,7 @@ J(name="c04.cellToCenterChild", props=["C04", "C12", "C18", "C01"], harness="c04
   enforce=["cellToCenterChild"], replay=dict(fn="cellToCenterChild", args=["h", "childRes"]))
 
 J(name="c04.iterInitParent", props=["C04", "C12", "C18"], harness="c04.c", entry="h_iterInitParent",
-  enforce=["_iterInitParent"], replace=["isPentagon"])
+  enforce=["_iterInitParent"], replace=["isPentagon"], replay=dict(fn="cellToChildren", args=["h", "childRes"]))
 J(name="c04.iterStepChild.bits", props=["C04", "C12", "C18"], harness="c04.c", entry="h_iterStepChild",
   enforce=["iterStepChild/iterStepChild_bits_contract"], unwind=18, timeout=1800)
 
@@ -340,21 +340,23 @@ J(name="c12.maxGridDiskSize", props=["C12", "C18", "C05"], harness="c12.c", entr
 J(name="c12.gridRingUnsafe", props=["C12", "C18", "C05"], harness="c12.c", entry="h_gridRingUnsafe", enforce=["gridRingUnsafe"],
   replace=["h3NeighborRotations/h3NeighborRotations_frame", "isPentagon"],
   loops=[dict(fn="gridRingUnsafe", loop=0, locals=["ring", "k", "origin", "rotations"], assigns="ring, origin, rotations",
-              inv="0 <= ring && ring <= k", dec="k - ring"),
+              inv="0 <= ring && ring <= k && !S_IS_PENT(origin)", dec="k - ring"),
          dict(fn="gridRingUnsafe", loop=1, locals=["direction", "pos", "idx", "k", "origin", "rotations", "out"],
               assigns="pos, idx, origin, rotations, __CPROVER_object_whole(out)",
               inv="0 <= pos && pos <= k && 0 <= direction && direction < 6 && k >= 1 && "
-                  "idx == 1 + direction * k + pos - ((direction == 5 && pos == k) ? 1 : 0)", dec="k - pos"),
+                  "idx == 1 + direction * k + pos - ((direction == 5 && pos == k) ? 1 : 0) && "
+                  "((0 <= h3v_g && h3v_g < idx) ==> !S_IS_PENT(out[h3v_g]))", dec="k - pos"),
          dict(fn="gridRingUnsafe", loop=2, locals=["direction", "idx", "k", "origin", "rotations", "out"],
               assigns="direction, idx, origin, rotations, __CPROVER_object_whole(out)",
-              inv="0 <= direction && direction <= 6 && k >= 1 && idx == 1 + direction * k - (direction == 6 ? 1 : 0)", dec="6 - direction")],
+              inv="0 <= direction && direction <= 6 && k >= 1 && idx == 1 + direction * k - (direction == 6 ? 1 : 0) && "
+                  "((0 <= h3v_g && h3v_g < idx) ==> !S_IS_PENT(out[h3v_g]))", dec="6 - direction")], checks=NO_CONV,
   replay=dict(fn="gridRingUnsafe", args=["origin", "k"]))
 J(name="c09.cellToLocalIj", props=["C09", "C12", "C18"], harness="c12.c", entry="h_cellToLocalIj", enforce=["cellToLocalIj"],
   replace=["cellToLocalIjk/cellToLocalIjk_frame", "ijkToIj/ijkToIj_frame"])
 J(name="c09.localIjToCell", props=["C09", "C12", "C18"], harness="c12.c", entry="h_localIjToCell", enforce=["localIjToCell"],
   replace=["localIjkToCell/localIjkToCell_frame"])
 J(name="c09.gridDistance", props=["C09", "C12", "C18"], harness="c12.c", entry="h_gridDistance", enforce=["gridDistance"],
-  replace=["cellToLocalIjk/cellToLocalIjk_frame", "ijkDistance/ijkDistance_frame"])
+  replace=["cellToLocalIjk/cellToLocalIjk_uf", "ijkDistance/ijkDistance_frame"])
 J(name="c14.gridPathCellsSize", props=["C14", "C12", "C18"], harness="c12.c", entry="h_gridPathCellsSize", enforce=["gridPathCellsSize"],
   replace=["gridDistance/gridDistance_ghost"])
 J(name="c14.gridPathCells", props=["C14", "C12", "C18"], harness="c12.c", entry="h_gridPathCells", enforce=["gridPathCells"], checks=NO_CONV, timeout=1800,
